@@ -119,6 +119,10 @@ class RawPayloadDecoder(AbstractSimplePayloadDecoder):
                     allowEoo=True, **options):
 
                 if value is eoo.endOfOctets:
+                    if result is noValue:
+                        raise error.PyAsn1Error(
+                            'No value under explicit tag %s' % (tagSet,))
+
                     if underrun:
                         # the last item we yield must be the decoded
                         # value, not an underrun met while waiting for
